@@ -10,7 +10,7 @@ import Mathlib.Tactic.SplitIfs
 
 set_option linter.unusedSimpArgs false
 
-namespace Cellml.Tie
+namespace Cellml.Tie.PPrinter
 open C11 Cellml.Gen
 
 /-- the model records the BASE of a factor that needs the `pow_brackets` fix-up, python the factor itself -/
@@ -77,4 +77,4 @@ theorem partition_marks (fs : List Item1) :
     | nil => rfl
     | cons m l ihl => simp [this m (by simp)]; exact ihl (fun x hx => this x (by simp [hx]))
 
-end Cellml.Tie
+end Cellml.Tie.PPrinter
